@@ -51,16 +51,20 @@ def machine_jobs(ctx):
     # seeded rows, 1/64 unit either side of the boundaries, every order
     jobs.append(("qam<=64/seeded", dict(kind="QAM", cards=[4, 16, 64], d=64, smode="seeded", nrows=16 if th else 6, rowlen=32, seed=s)))
     jobs.append(("bpsk/seeded", dict(kind="BPSK", cards=[2], d=1024, smode="seeded", nrows=8, rowlen=32, seed=s)))
-    n = 48 if th else 8
+    n = 64 if th else 8
     jobs.append(("qam256-1024/seeded", dict(kind="QAM", cards=[256, 1024], d=64, smode="seeded", nrows=n, rowlen=32, seed=s)))
-    jobs.append(("qam4096/seeded", dict(kind="QAM", cards=[4096], d=64, smode="seeded", nrows=24 if th else 6, rowlen=32, seed=s)))
-    n = 24 if th else 4
+    jobs.append(("qam4096/seeded", dict(kind="QAM", cards=[4096], d=64, smode="seeded", nrows=48 if th else 6, rowlen=32, seed=s)))
+    n = 48 if th else 4
     jobs.append(("psk>=128/seeded", dict(kind="PSK", cards=PSK_BIG, d=64, smode="seeded", nrows=n, rowlen=32, seed=s, noff=1)))
     jobs.append(("psk>=128/edge", dict(kind="PSK", cards=PSK_BIG, d=1024, smode="edge", nrows=n, rowlen=32, seed=s)))
     if th:
         jobs.append(("psk<=64/grid32", dict(kind="PSK", cards=PSK_SMALL, d=32, rowlen=128)))
         for part in range(4):
             jobs.append((f"qam16/grid32/{part}", dict(kind="QAM", cards=[16], d=32, part=part, nparts=4)))
+        for part in range(8):
+            jobs.append((f"qam64/grid16/{part}", dict(kind="QAM", cards=[64], d=16, part=part, nparts=8)))
+        jobs.append(("qam<=64/seeded2", dict(kind="QAM", cards=[4, 16, 64], d=64, smode="seeded", nrows=16, rowlen=32, seed=s + 1000)))
+        jobs.append(("psk>=128/seeded2", dict(kind="PSK", cards=PSK_BIG, d=64, smode="seeded", nrows=n, rowlen=32, seed=s + 1000)))
     # every cardinality 0..1100: accepted iff supported (no samples needed)
     jobs.append(("psk/cards", dict(kind="PSK", cards=list(range(0, 1101)), noff=2, smode="seeded", nrows=1, rowlen=2, emit=False, workers=4)))
     jobs.append(("qam/cards", dict(kind="QAM", cards=list(range(0, 1101)) + [4096], smode="seeded", nrows=1, rowlen=2, emit=False, workers=4)))
